@@ -7,6 +7,7 @@ CONSTANTS
   Algo = "fixed"
   SeedCopyreg = "live"
   InitGuard = FALSE
+  CacheById = FALSE
   KwOnlyOK = TRUE
   SharedCtx = FALSE
   CtxCopy = TRUE
